@@ -91,6 +91,32 @@ def const_use_cases(rng):
     return L
 
 
+def time_div_cases(rng):
+    """integer division of Time / DimensionlessInteger truncates toward zero: negative, non-multiple dividends over power-of-two and
+    other small divisors, every operator form (a shift, a floor division or an unsigned detour differ exactly there)"""
+    L = []
+    A = [-1, -3, -5, -7, -9, -127, -129, -1001, -(2 ** 31) - 1, -(2 ** 40) - 3, 1, 3, 7, 129, 2 ** 40 + 3, rng.randint(-10 ** 12, -1) | 1]
+    B = [2, 4, 8, 16, 1024, 2 ** 31, 2 ** 32, 3, 10, -2, -4, -3]
+    for a in A:
+        for b in B:
+            for op in ("div", "divas"):
+                L.append("q %s T:%d D:%d" % (op, a, b))
+                L.append("q %s D:%d D:%d" % (op, a, b))
+    return L
+
+
+def setter_cases(rng, n):
+    """well-dimensioned uses of the unit-checked State setters / constructor on states that are NOT at rest (what a setter leaves
+    behind in the other two components shows only then)"""
+    L = []
+    for _ in range(n):
+        L.append("k ssetp %s %s" % (rand_state(rng), q(rand_f(rng), 1, 0)))
+        L.append("k ssetv %s %s" % (rand_state(rng), q(rand_f(rng), 1, -1)))
+        L.append("k sseta %s %s" % (rand_state(rng), q(rand_f(rng), 1, -2)))
+        L.append("k snew %s %s %s" % (q(rand_f(rng), 1, 0), q(rand_f(rng), 1, -1), q(rand_f(rng), 1, -2)))
+    return L
+
+
 INT_BOUNDS = sorted(set(x for k in (7, 8, 15, 16, 24, 31, 32, 53, 62, 63) for d in (-1, 0, 1) for x in (2 ** k + d, -(2 ** k) + d)
                         if -(2 ** 63) <= x <= 2 ** 63 - 1))
 
@@ -510,6 +536,7 @@ def gen_C18(rng, tier):
             L.append("q mul D:%d T:%d" % (b, a))
         L.append("q neg T:%d" % a)
         L.append("q neg D:%d" % a)
+    L += time_div_cases(rng)
     # conversions
     ts = sorted(set([strat_i64(rng) for _ in range(n_of(tier, 4000, 40000))] + INT_BOUNDS))
     for t in ts:
@@ -943,10 +970,14 @@ def gen_C10(rng, tier):
         def mk(r):
             st["i"] += 1
             x = st["i"] * 0.37
+            # the magnitude of the signal sometimes changes by many orders between samples (a residue carried over from a run of large
+            # values — a compensation term, a cached partial sum — then dominates a later run of tiny ones)
+            if r.random() < 0.04:
+                st["scale"] = 10.0 ** r.randint(-9, 4)
             # plateaus: sometimes the reading is EXACTLY the previous one (a sensor at rest) although time has moved on
             if st["last"] is not None and r.random() < 0.1:
                 return st["last"]
-            st["last"] = q(f2h(a * x * x + b * math.sin(x) + c + r.uniform(-0.5, 0.5)), mm, s)
+            st["last"] = q(f2h(st.get("scale", 1.0) * (a * x * x + b * math.sin(x) + c + r.uniform(-0.5, 0.5))), mm, s)
             return st["last"]
         return mk
     for name, (mm, s) in (("int", (None, None)), ("drv", (None, None)), ("a2s", (1, -2)), ("v2s", (1, -1)), ("p2s", (1, 0))):
@@ -1785,8 +1816,9 @@ def gen_C20(rng, tier):
             elif r < 0.45: evs.append("iu:" + rng.choice(["ok", "ok", "E5", "EN"]))
             elif r < 0.52: evs.append("xs:" + datum_state(rng, t))
             elif r < 0.57: evs.append("xc:" + datum_cmd(rng, t))
+            elif r < 0.60: evs.append("dis")       # an unconnected encoder wrapper still writes its reading into its own terminal
             else: evs.append("upd")
-        L.append("wr enc " + " ".join(evs))
+        L.append("wr enc " + " ".join((["dis"] if rng.random() < 0.15 else []) + evs))
         # PID wrapper
         evs = []
         t = rng.randint(0, 10 ** 9)
@@ -2090,6 +2122,8 @@ def gen_C19(rng, tier):
     L += subsample(rng, gen_C18(rng, "quick"), 2 * n)
     L += i8_edge_cases(rng, 150)
     L += const_use_cases(rng)
+    L += time_div_cases(rng)
+    L += setter_cases(rng, 40)
     L += subsample(rng, gen_C14(rng, "quick"), 2 * n)
     L += subsample(rng, gen_C03(rng, "quick"), n)
     L += subsample(rng, gen_C02(rng, "quick"), n)
